@@ -107,7 +107,11 @@ func (p *makefileParser) handleTarget(
 ) error {
 	// Combine annotation lines into a YAML snippet.
 	annotationContent := strings.Join(annotationLines, "\n")
-	lastLineNum := annotationLineNumbers[len(annotationLineNumbers)-1]
+	// A bare "# @grog" marker without any annotation lines is allowed
+	lastLineNum := 0
+	if len(annotationLineNumbers) > 0 {
+		lastLineNum = annotationLineNumbers[len(annotationLineNumbers)-1]
+	}
 
 	var annotation grogAnnotation
 	if len(annotationContent) > 0 {
@@ -132,6 +136,11 @@ func (p *makefileParser) handleTarget(
 		Inputs:       annotation.Inputs,
 		Outputs:      annotation.Outputs,
 		Tags:         annotation.Tags,
+
+		Fingerprint:          annotation.Fingerprint,
+		Platforms:            annotation.Platforms,
+		EnvironmentVariables: annotation.EnvironmentVariables,
+		Timeout:              annotation.Timeout,
 	}
 
 	// Use the annotation's name as key if provided, otherwise use the target name.
